@@ -14,6 +14,11 @@ import (
 
 	"lunar/engine/config"
 	lunarMessages "lunar/engine/messages"
+	"lunar/engine/routing"
+
+	"github.com/negasus/haproxy-spoe-go/message"
+	"github.com/negasus/haproxy-spoe-go/payload/kv"
+	"github.com/negasus/haproxy-spoe-go/request"
 
 	"verifsim/kernel"
 )
@@ -98,6 +103,10 @@ func runC18R(s *kernel.Sim) {
 		return
 	}
 	body, _, _ := c08Payload("change-flow", "/configuration", c18Files())
+	// in half of the runs the frames go through the SPOE message handler
+	viaHandler := tp.Chance(1, 2)
+	s.Knobs["via_spoe_message_handler"] = viaHandler
+	handler := routing.Handler(env.mgr)
 	var wg sync.WaitGroup
 	verdicts := make([][]string, nTasks)
 	for i := range plans {
@@ -111,16 +120,30 @@ func runC18R(s *kernel.Sim) {
 				if plans[i].grp != "" {
 					h["x-grp"] = plans[i].grp
 				}
-				fa, err := env.mgr.VerifOnRequest(reqMsg(id, "GET", paths[u][0], paths[u][1], h))
 				v := "error"
-				if fa != nil && fa.Request != nil {
-					v = verdictOf(fa.Request.Actions, err)
+				if viaHandler {
+					v = spoeRequest(handler, id, paths[u][0], paths[u][1], h)
+				} else {
+					fa, err := env.mgr.VerifOnRequest(reqMsg(id, "GET", paths[u][0], paths[u][1], h))
+					if fa != nil && fa.Request != nil {
+						v = verdictOf(fa.Request.Actions, err)
+					}
 				}
 				verdicts[i] = append(verdicts[i], v)
 				if v == "pass" {
 					time.Sleep(time.Duration(1+k) * 100 * time.Microsecond)
 					if u == 3 && k%2 == 1 {
 						env.mgr.VerifStream().OnError(id)
+					} else if viaHandler {
+						pk := kv.NewKV()
+						pk.Add("id", id)
+						pk.Add("sequence_id", id)
+						pk.Add("method", "GET")
+						pk.Add("url", paths[u][0]+paths[u][1])
+						pk.Add("status", int64(200))
+						pk.Add("headers", "")
+						pk.Add("body", []byte{})
+						handler(&request.Request{Messages: &message.Messages{&message.Message{Name: "lunar-on-response", KV: pk}}})
 					} else {
 						env.mgr.VerifOnResponse(lunarMessages.OnResponse{ID: id, SequenceID: id, Method: "GET", URL: paths[u][0] + paths[u][1], Status: 200, Headers: map[string]string{}, RawBody: []byte{}})
 					}
@@ -252,6 +275,12 @@ func runC18S(s *kernel.Sim) {
 	files := c18Files()
 	delete(files, "gateway_config.yaml")
 	delete(files, "metrics.yaml")
+	// in half of the runs the transactions enter through the SPOE message handler
+	// (routing.Handler, one call per frame, as the HAProxy agent makes them from one
+	// goroutine per frame): what comes back is what the handler put into the frame
+	viaHandler := tp.Chance(1, 2)
+	s.Knobs["via_spoe_message_handler"] = viaHandler
+	handlers := map[*engineEnv]routing.MessageHandler{}
 	run := func(e *engineEnv, t *txn, id string) string {
 		h := map[string]string{}
 		if t.grp != "" {
@@ -259,6 +288,9 @@ func runC18S(s *kernel.Sim) {
 		}
 		if t.skip {
 			h["x-skip"] = "1"
+		}
+		if viaHandler {
+			return spoeRequest(handlers[e], id, paths[t.u][0], paths[t.u][1], h)
 		}
 		o := e.doRequest(reqMsg(id, "GET", paths[t.u][0], paths[t.u][1], h))
 		switch {
@@ -274,8 +306,29 @@ func runC18S(s *kernel.Sim) {
 			run(e, &txn{u: 1, grp: ""}, fmt.Sprintf("%s-pre%d", tag, k))
 		}
 	}
+	mkEngine := func() (*engineEnv, error) {
+		if !viaHandler {
+			return newEngine(s, files)
+		}
+		dir := runTmp(s)
+		if err := writeTree(dir, files); err != nil {
+			return nil, err
+		}
+		c08setEnv(dir)
+		m, _ := os.ReadFile("/repo/proxy/metrics.yaml")
+		os.WriteFile(os.Getenv("LUNAR_PROXY_METRICS_CONFIG_DEFAULT"), m, 0o644)
+		tmpDirs = append(tmpDirs, os.Getenv("LUNAR_PROXY_METRICS_CONFIG_DEFAULT"), os.Getenv("LUNAR_FLOWS_PATH_PARAM_CONFIG"))
+		installHAProxy()
+		mgr, err := routing.NewVerifStreamsManager()
+		if err != nil {
+			return nil, err
+		}
+		e := &engineEnv{Dir: dir, Stream: mgr.VerifStream(), Files: files}
+		handlers[e] = routing.Handler(mgr)
+		return e, nil
+	}
 	// concurrent execution
-	env, err := newEngine(s, files)
+	env, err := mkEngine()
 	if err != nil {
 		s.HarnessErr = "engine rejected C18S configuration: " + err.Error()
 		return
@@ -310,7 +363,7 @@ func runC18S(s *kernel.Sim) {
 	var serial []string
 	match := false
 	for _, p := range perms {
-		e, err := newEngine(s, files)
+		e, err := mkEngine()
 		if err != nil {
 			s.HarnessErr = "engine rejected C18S configuration: " + err.Error()
 			return
@@ -364,4 +417,40 @@ func inertFlow(name, url string) string {
 		Req:   []connDef{{FromStream: "start", ToProc: "i"}, {FromProc: "i", Cond: "hit", ToStream: "end"}, {FromProc: "i", Cond: "miss", ToStream: "end"}},
 		Resp:  []connDef{{FromStream: "start", ToStream: "end"}},
 	}.YAML()
+}
+
+// spoeRequest sends one request frame through the SPOE message handler and reads
+// the verdict from the actions the handler put into the frame.
+func spoeRequest(handler routing.MessageHandler, id, host, path string, h map[string]string) string {
+	block := ""
+	for _, k := range sortedKeys(h) {
+		block += k + ": " + h[k] + "\r\n"
+	}
+	rk := kv.NewKV()
+	rk.Add("id", id)
+	rk.Add("sequence_id", id)
+	rk.Add("method", "GET")
+	rk.Add("scheme", "https")
+	rk.Add("url", host+path)
+	rk.Add("path", path)
+	rk.Add("query", "")
+	rk.Add("headers", block)
+	rk.Add("body", []byte{})
+	frame := &request.Request{Messages: &message.Messages{&message.Message{Name: "lunar-on-request", KV: rk}}}
+	handler(frame)
+	early := false
+	for _, a := range frame.Actions {
+		if a.Name == "return_early_response" {
+			early = true
+		}
+	}
+	if !early {
+		return "pass"
+	}
+	for _, a := range frame.Actions {
+		if a.Name == "status_code" {
+			return fmt.Sprint(a.Value)
+		}
+	}
+	return "early"
 }
